@@ -1,9 +1,10 @@
 import ComposeVerif.Ops.Common
 import ComposeVerif.Model.C11Defaults
 import ComposeVerif.Model.C11Normalize
+import ComposeVerif.Model.C11Keys
 import ComposeVerif.Gen.Tables
 /-! line-protocol ops for C11: `c11.normalize`, `c11.setDefaults`, `c11.canonical`, `c11.dependsOn`,
-`c11.envFile`, `c11.clean` -/
+`c11.envFile`, `c11.clean`, `c11.indexKey`, `c11.unicity` -/
 open Lean
 namespace CV.Ops.C11
 open CV CV.C11
@@ -43,7 +44,48 @@ def canonicalOp : Handler := fun args =>
 def cleanOp : Handler := fun args =>
   Json.mkObj [("ok", Json.str (pathClean (getStr args "s")))]
 
+/-! unicity keys (override/uncity.go): the indexer is found the way `enforceUnicity` finds it — first row of the
+regenerated `unique` table that matches `services.a.<list>` — and must be one the model knows. -/
+
+def outKey : Out String → Json
+  | .ok k => Json.mkObj [("ok", k)]
+  | .err _ => Json.mkObj [("err", "err")]
+  | .panic s => Json.mkObj [("panic", s)]
+
+def listIndexer (list : String) : Option (Val → Out String) :=
+  match TPath.firstMatch CV.Gen.unique (((TPath.root.next "services").next "a").next list) with
+  | some h => indexerOf h
+  | none => none
+
+/-- what `SetDefaultValues` (ports, secrets) / `Canonical` (env_file) make of one entry of the list -/
+def entryDefaults (list : String) (v : Val) : Out Val :=
+  if list = "ports" then portDefaults v
+  else if list = "secrets" then defaultSecretMount v
+  else if list = "env_file" then .ok (envFileValue v)
+  else .ok v
+
+def indexKeyOp : Handler := fun args =>
+  let list := getStr args "list"
+  match getVal args "v", listIndexer list with
+  | .ok v, some key =>
+    let dkey : Out String := match entryDefaults list v with
+      | .ok v' => key v'
+      | .err e => .err e
+      | .panic s => .panic s
+    Json.mkObj [("key", outKey (key v)), ("dkey", outKey dkey)]
+  | .ok _, none => bad ("no modelled indexer for services.a." ++ list)
+  | .error e, _ => bad e
+
+def unicityOp : Handler := fun args =>
+  let list := getStr args "list"
+  match getVal args "xs", listIndexer list with
+  | .ok (.seq xs), some key => outVal ((enforceSeq key xs).map Val.seq)
+  | .ok _, some _ => bad "xs is not a sequence"
+  | .ok _, none => bad ("no modelled indexer for services.a." ++ list)
+  | .error e, _ => bad e
+
 def handlers : List (String × Handler) :=
-  [("c11.normalize", normalizeOp), ("c11.setDefaults", setDefaultsOp), ("c11.canonical", canonicalOp), ("c11.clean", cleanOp)]
+  [("c11.normalize", normalizeOp), ("c11.setDefaults", setDefaultsOp), ("c11.canonical", canonicalOp), ("c11.clean", cleanOp),
+   ("c11.indexKey", indexKeyOp), ("c11.unicity", unicityOp)]
 
 end CV.Ops.C11
